@@ -168,8 +168,9 @@ def gen_rule(rnd, depth=0, in_media=False):
                                  0 if mode == 'all-empty' else 2, atrules=False))
                    for m in rnd.sample(['@top-left', '@bottom-center'], rnd.randint(0, 2))]
         if margins and mode != 'all-empty' and rnd.random() < 0.25:
-            # the same box once more (the parser merges them); distinct names, so that the merged block is its list
-            margins.append((rnd.choice(margins)[0], gen_decls(rnd, 1, 2, ['content', 'width', 'color'], distinct=True, atrules=False)))
+            # the same box once more (the parser merges them: the merged block holds every declaration of both, in order,
+            # also a name stated twice)
+            margins.append((rnd.choice(margins)[0], gen_decls(rnd, 1, 3, ['content', 'width', 'color'], atrules=False)))
         return ('page', sel, gen_decls(rnd, 0 if margins and rnd.random() < 0.15 else 1, 3, ['margin', 'size', 'top'], atrules=False), margins)
     if k == 'fontface':
         if in_media:
